@@ -22,6 +22,69 @@ EXPLANATION = (
 TECHNIQUE = "static analysis of rustc MIR: arg-min structure rule (gate + provenance) on KMeans::predict, index-indirection provenance rule on BBDTree::build_node, builder field-preservation rule"
 
 
+def _argmin_fold(prog, b, res, is_dist):
+    """fold form of the arg-min: `(0..k).fold((max, 0), |(min, best), j| { let d = dist(row, centroids[j]); if d < min
+    { (d, j) } else { (min, best) } })` with component 1 of the result stored as the label.  Returns None if there is no
+    such fold, else (ok, site, detail)."""
+    from sa.prov import alts as _alts
+    for bb, t in b.calls():
+        f = t.get("f")
+        if not (f and f["path"].endswith("Iterator::fold") and len(t["args"]) == 3):
+            continue
+        init, clo = res.operand(t["args"][1]), res.operand(t["args"][2])
+        if not (clo[0] == "agg" and clo[1].startswith("closure:")):
+            continue
+        cb = prog.get(clo[1][len("closure:"):])
+        if cb is None:
+            continue
+        ccx = BodyCtx.of(cb)
+        hit = None
+        for c in ccx.cmps:
+            for (L, R, rel) in ((c.lhs, c.rhs, c.rel), (c.rhs, c.lhs, guards.FLIP[c.rel])):
+                if is_dist(L) and any(s[0] == "arg" and s[1] == 2 for s in subterms(R)):
+                    hit = (c, L, R, rel)
+        if not hit:
+            continue
+        c, L, R, rel = hit
+        site = c.where
+        problems = []
+        # distance operands: a centroid indexed by the item, and a row of the input
+        cents = [a for a in L[2] if any(s[0] == "field" and s[2] == "centroids" for s in subterms(a)) or any(s[0] == "upvar" for s in subterms(a))]
+        item_idx = any(s[0] == "idx" and any(x[0] == "arg" and x[1] == 3 for x in subterms(s[2])) for a in L[2] for s in subterms(a))
+        if not item_idx:
+            problems.append("the distance is not taken to the centroid indexed by the fold's item")
+        # seed
+        if not (init[0] == "agg" and init[2] and init[2][0][0] == "call" and init[2][0][1].endswith(("::max_value", "::infinity"))):
+            problems.append(f"the running minimum starts from `{render(init)[:50]}`")
+        # the tuple (dist, item) is produced on the strict dist < min edge only
+        upd = []
+        for i, j, st in cb.stmts():
+            if st["k"] == "assign" and st["r"]["k"] == "agg" and len(st["r"].get("ops", [])) == 2:
+                v0 = ccx.res.operand(st["r"]["ops"][0])
+                v1 = ccx.res.operand(st["r"]["ops"][1])
+                if v0 == L and any(s[0] == "arg" and s[1] == 3 for s in [v1] + list(subterms(v1))):
+                    upd.append(i)
+        if not upd:
+            problems.append("no branch returns (distance, item)")
+        else:
+            atoms = set()
+            for er, dst, other in ((rel, c.true_bb, c.false_bb), (guards.NEG[rel], c.false_bb, c.true_bb)):
+                if any(cb.dominates(dst, u) and not cb.dominates(other, u) for u in upd):
+                    atoms |= guards.ATOMS[er]
+            if not (atoms <= frozenset("nz") and "n" in atoms):
+                problems.append(f"(distance, item) is returned under atoms {sorted(atoms)} of sign(dist - min): expected dist < min")
+        # component 1 of the fold result is what is stored
+        st = flow.label_stores(b, res, ("BaseMatrix::set", "BaseVector::set"))
+        folded = lambda v: any(s[0] == "field" and s[2] == "1" and any(x[0] == "call" and x[1].endswith("Iterator::fold") for x in [s[1]] + list(_alts(s[1])))
+                               for s in subterms(v))
+        if not st or not all(folded(v) for _, v in st):
+            problems.append("the stored label is not component 1 of the fold result")
+        if problems:
+            return (False, site, "; ".join(problems))
+        return (True, site, f"`{render(L)[:50]} {rel} {render(R)[:30]}` selects (dist, item); seed {render(init)[:30]}")
+    return None
+
+
 def run(ck, prog):
     rule, inst = "E1-argmin", "KMeans::predict picks the centroid with the smallest squared Euclidean distance to the row"
     try:
@@ -40,7 +103,14 @@ def run(ck, prog):
             if is_dist(L) and R[0] == "phi":
                 hit = (c, L, R, rel)
     if not hit:
-        ck.violation(rule, inst, b.path, site, expected="a comparison of the squared Euclidean distance with the running minimum", found="none found")
+        r = _argmin_fold(prog, b, res, is_dist)
+        if r is None:
+            ck.violation(rule, inst, b.path, site, expected="a comparison of the squared Euclidean distance with the running minimum", found="none found")
+        elif r[0]:
+            ck.ok(rule, inst, b.path, r[1], "fold form: " + r[2])
+        else:
+            ck.violation(rule, inst, b.path, r[1], expected="fold((max, _), |(min, best), j| if d(row, c_j) < min { (d, j) } else { (min, best) }).1 is stored",
+                         found=r[2])
         return
     c, L, R, rel = hit
     site = c.where
